@@ -1,6 +1,7 @@
 import Drv.Common
 import Drv.PragParse
 import VrpModel.C12
+import VrpProofs.C12Complete
 open Lean Drv C12
 
 namespace Drv.C12
@@ -214,6 +215,7 @@ def handle (j : Json) : R (List (String × Json)) := do
     -- the rules of the specification the mutant breaks (a clean structural mutant breaks "partition" only)
     let failing := ((Spec.parts P2 S2).filter (fun p => !p.2)).map (fun p => Json.str p.1)
     mutValid := mutValid ++ [Json.mkObj [("valid", Json.bool v), ("supported", Json.bool sup),
+                                         ("in_thm", Json.bool (sup && v && C12Complete.inputWF P2 S2 && C12Complete.unambiguous P2 S2)),
                                          ("fail", Json.arr failing.toArray)]]
     let implM := implMuts.getD idx ["<missing>"]
     let name := s!"{(strF m "cls").toOption.getD "?"}@{(strF m "site").toOption.getD "?"}"
@@ -235,6 +237,8 @@ def handle (j : Json) : R (List (String × Json)) := do
           ("oracle", Json.mkObj ([("accepts_valid", Json.bool acceptsValid), ("rejects_breach", Json.bool rejectsBreach)] ++ bad)),
           ("spec", Json.mkObj [("supported", Json.bool baseSupported), ("valid", Json.bool baseValid),
                                ("core_supported", Json.bool (Spec.supportedCore P S)),
+                               -- the base document lies within the hypotheses of `C12Complete.checker_complete`
+                               ("in_completeness_theorem", Json.bool (baseSupported && baseValid && C12Complete.inputWF P S && C12Complete.unambiguous P S)),
                                ("deviation", match Spec.deviationOf P S with | some d => Json.str d | none => Json.null),
                                ("prag", match Drv.PragParse.parseProblem spJ, Drv.PragParse.parseSolution solJ with
                                   | .ok p, .ok s => Json.arr ((_root_.Spec.feasible p s ++ _root_.Spec.partition p s ++ _root_.Spec.replay p s).map Json.str).toArray
